@@ -61,6 +61,7 @@ from mc.seams import EntropySeam
 
 PROPERTY = 'C20'
 GUARD = ['numqi.matrix_space']  # argument-immutability oracle (mc.seams.ImmutabilityGuard)
+GUARD_LAYOUT = ['numqi.matrix_space']  # memory-layout metamorphic oracle (same wrapper)
 LEVEL = 'model_checking'
 RULE = ('mode P (product lattices): case = one configuration (decomp: generator class x field x shape; hier/abc/rank1: sizes x rank bound '
         'x subspace dimension N x hierarchy level x field; numrange: matrix size); inside a case the whole input alphabet is executed on the '
